@@ -11,3 +11,7 @@ pub use time_types::*;
 
 #[cfg(feature = "std")]
 extern crate std;
+
+#[cfg(all(test, pendulum_project_ntpd_rs_verif))]
+#[path = "/verif/harness/statime-base/hook_lib.rs"]
+mod verif_hook;
